@@ -423,7 +423,7 @@ func exec(c proto.Case, o *proto.Out) []string {
 					outs[i] = "refuse"
 					refuses++
 				} else {
-					outs[i] = "admit"
+					outs[i] = "pass"
 					admits++
 				}
 				continue
@@ -467,7 +467,7 @@ func exec(c proto.Case, o *proto.Out) []string {
 				if err != nil {
 					outs[i] = "err:allowed"
 				} else if b {
-					outs[i] = "admit"
+					outs[i] = "pass"
 					admits++
 				} else {
 					outs[i] = "refuse"
@@ -485,7 +485,7 @@ func exec(c proto.Case, o *proto.Out) []string {
 	}
 	for _, x := range outs {
 		switch x {
-		case "admit", "true":
+		case "pass", "true":
 			o.Count("verdict-admit")
 		case "refuse", "false":
 			o.Count("verdict-refuse")
